@@ -28,3 +28,14 @@ Definition case_ok (c : nat * list nat * nat * list nat * list nat) : bool :=
   | None => false
   end.
 Definition c06_mismatches := mism_from case_ok 0.
+
+(* the alternatives' tokens taking their termination channels in a chosen order (hook VerifEventGatewayLookups):
+   (early: 1 = alternative j looked before the determination, observed: 1 = a notice was waiting for it) *)
+From BV Require Export Model.TermChan.
+Definition lookup_case_ok (c : list nat * list nat) : bool :=
+  let '(early, obs) := c in
+  match lookup_run false (map (fun x => negb (x =? 0)) early) with
+  | Some w => list_eqb Bool.eqb w (map (fun x => negb (x =? 0)) obs)
+  | None => false
+  end.
+Definition c06_lookup_mismatches := mism_from lookup_case_ok 0.
